@@ -99,6 +99,10 @@ class Pool:
         rng = self.rng
         shape = tuple(a.shape)
         r = rng.random() if same_scale is None else (0.1 if same_scale else 0.5)
+        if hasattr(a, "qtype") and rng.random() < 0.15:
+            # the operand itself, or a copy of it: identical scales whatever the axis (cat([x, x]), stack([x, x.clone()]))
+            c = rng.integers(3)
+            return a if c == 0 else (a.clone() if c == 1 else a.detach())
         if hasattr(a, "qtype") and getattr(a, "axis", 0) is None and r < 0.4 and type(a).__name__ == "QBytesTensor":
             qt = a.qtype
             if rng.random() < 0.2:
